@@ -23,10 +23,16 @@ type cFile struct {
 	afero.File
 	r      *strings.Reader
 	closed *int
+	noSeek bool // a pipe / standard input: cannot be rewound
 }
 
-func (f *cFile) Read(p []byte) (int, error)                 { return f.r.Read(p) }
-func (f *cFile) Seek(off int64, whence int) (int64, error) { return f.r.Seek(off, whence) }
+func (f *cFile) Read(p []byte) (int, error) { return f.r.Read(p) }
+func (f *cFile) Seek(off int64, whence int) (int64, error) {
+	if f.noSeek {
+		return 0, errors.New("seek ammo: illegal seek")
+	}
+	return f.r.Seek(off, whence)
+}
 func (f *cFile) Close() error {
 	*f.closed++
 	if *f.closed > 1 {
@@ -40,11 +46,12 @@ type cFs struct {
 	content string
 	closed  int
 	opened  int
+	noSeek  bool
 }
 
 func (fs *cFs) Open(name string) (afero.File, error) {
 	fs.opened++
-	return &cFile{r: strings.NewReader(fs.content), closed: &fs.closed}, nil
+	return &cFile{r: strings.NewReader(fs.content), closed: &fs.closed, noSeek: fs.noSeek}, nil
 }
 
 func cItoa(n int) string {
@@ -87,9 +94,15 @@ func HarnessC08ConstructedProvider() {
 	var fs afero.Fs
 	model := &cFs{content: cContent(dec, E)}
 	tmpName := ""
+	// ammo read from a pipe (the model file, natively too): one pass over it needs no rewinding
+	pipe := !inline && passes == 1 && vNondetBool("pipe")
 	switch {
 	case inline:
 		conf.Uris = []string{"/a t1", "/b t2", "/c t1"}[:E]
+		fs = model
+	case pipe:
+		conf.File = "ammo"
+		model.noSeek = true
 		fs = model
 	case vNative():
 		f, err := os.CreateTemp("", "c08ammo")
@@ -140,7 +153,7 @@ func HarnessC08ConstructedProvider() {
 	}
 	vCheck("D1.delivered.count", got == exp)
 	vCheck("D2.run.returns.nil", runErr == nil)
-	if !inline && !vNative() {
+	if !inline && (pipe || !vNative()) {
 		vCheck("D4.ammo.file.closed.once", model.opened == 1 && model.closed == 1)
 	}
 	vObserve("got", int64(got))
